@@ -212,6 +212,8 @@ def batch_probes(F, rnd):
     P1, P2, P3 = rand_point(F, rnd), rand_point(F, rnd), rand_point(F, rnd)
     kinds = {'O': (None, None), 'N': (P1, None), 'J': (P2, F.rand(rnd)), 'K': (P3, F.rand(rnd)), 'M': (P3, None)}
     shapes = ['', 'O', 'N', 'J', 'OO', 'NJ', 'JN', 'OJ', 'JO', 'ON', 'NO', 'JK', 'NM', 'JNK', 'NJO', 'ONJ', 'JON', 'NJM', 'JKN', 'OJNKM', 'NOJOM', 'MJKNO', 'JNKOM']
+    if THOROUGH[0]:
+        shapes += [''.join(rnd.choice('ONJKM') for _ in range(rnd.randrange(2, 9))) for _ in range(40)]
     cases = []
     for sh in shapes:
         kv = dict(op='batch_norm', n=str(len(sh)))
